@@ -251,7 +251,11 @@ func (f *Frame) callContract(in ssa.Instruction, ct *Contract, callee *ssa.Funct
 		if f.contract != nil && len(f.contract.Props) > 0 && len(rq.Props) == 0 {
 			props = unionProps(props, f.contract.Props)
 		}
-		e.oblige("call-requires", fmt.Sprintf("%s:call:%s:requires:%s", fname, ct.Name, clauseName(rq)), props, guard, t, f.pos(in.Pos()), rq.Text)
+		if e.primary() {
+			e.oblige("call-requires", fmt.Sprintf("%s:call:%s:requires:%s", fname, ct.Name, clauseName(rq)), props, guard, t, f.pos(in.Pos()), rq.Text)
+		} else {
+			e.assume(guard, t)
+		}
 	}
 	// frame: callee's modifies must be allowed by ours
 	f.frameCheckCall(in, ct, callee, env, guard, st)
@@ -337,6 +341,7 @@ func (f *Frame) applyModifies(ct *Contract, callee *ssa.Function, env *specEnv, 
 		ref    string
 		lo, hi string // for element regions ("" = whole object)
 		cond   string // "" = unconditional
+		all    bool
 	}
 	targets := map[string][]target{}
 	envOld := &specEnv{f: env.f, st: old, old: old, names: env.names, callSite: true}
@@ -346,7 +351,7 @@ func (f *Frame) applyModifies(ct *Contract, callee *ssa.Function, env *specEnv, 
 			cond = f.specBool(m.Exprs[0], envOld)
 		}
 		for _, mt := range f.modTargets(m.Expr, envOld) {
-			targets[mt.heap] = append(targets[mt.heap], target{ref: mt.ref, lo: mt.lo, hi: mt.hi, cond: cond})
+			targets[mt.heap] = append(targets[mt.heap], target{ref: mt.ref, lo: mt.lo, hi: mt.hi, cond: cond, all: mt.all})
 			w[mt.heap] = true
 			if _, ok := e.heapSort[mt.heap]; !ok {
 				e.heapSort[mt.heap] = mt.sort
@@ -373,6 +378,15 @@ func (f *Frame) applyModifies(ct *Contract, callee *ssa.Function, env *specEnv, 
 		}
 		if !strings.HasPrefix(sortS, "(Array Int") {
 			continue
+		}
+		wild := false
+		for _, t := range ts {
+			if t.all {
+				wild = true
+			}
+		}
+		if wild {
+			continue // the whole heap is havocked
 		}
 		var excl []string
 		for _, t := range ts {
@@ -408,6 +422,7 @@ type modTarget struct {
 	heap, sort string
 	ref        string
 	lo, hi     string
+	all        bool // every object of the type (anyof(*T)): the whole heap
 }
 
 // modTargets resolves a modifies expression into heap targets (evaluated in env).
@@ -468,6 +483,22 @@ func (f *Frame) modTargets(x SExpr, env *specEnv) []modTarget {
 	case SIndex:
 		return f.modTargets(SSlice{m.X, m.I, SBin{"+", m.I, SInt{"1"}}}, env)
 	case SCall:
+		if m.Fn == "anyof" && len(m.Args) == 1 {
+			// anyof(*T): every field of every object of type T
+			if ty, ok := m.Args[0].(SType); ok {
+				gt := f.resolveType(ty.Text)
+				if pt, ok := gt.(*types.Pointer); ok {
+					var out []modTarget
+					for _, t := range f.structTargets("0", pt.Elem()) {
+						t.all = true
+						out = append(out, t)
+					}
+					return out
+				}
+			}
+			e.errorf("anyof needs a pointer-to-struct type")
+			return nil
+		}
 		return f.wholeObject(f.specTerm(m, env))
 	}
 	e.errorf("unsupported modifies expression %#v", x)
